@@ -133,7 +133,10 @@ def l3_batch(seed, count, nq, driver, outdir, binary=None, profiles=("opt", "loo
         ds = gen.gen_dataset(r, prof)
         # Int16 fields of the node files, distances of the path JSON
         ops = []
-        for (q, acc, egr) in l3._gen_queries(gen, r, ds, prof, nq):
+        for qi, (q, acc, egr) in enumerate(l3._gen_queries(gen, r, ds, prof, nq)):
+            # every scenario of the directory is asked (the generator aims most queries at scenario 1): scenario lists --
+            # service subsets incl. repeated entries, only/except filters, filters that leave nothing -- go through the real loader
+            q["scen"] = (1, 2, 3, 4, 2, 1, 3, 2)[qi % 8]
             # access/egress maxima vary: every generated table row is <= 600 s and the stub answers 100000 s for a stop that is
             # not in the table, so every maximum in [600, 100000) must give the model's answer; the large values exercise the
             # walking-radius arithmetic in front of the router ("no limit" is exercised by C18's requests)
